@@ -78,6 +78,25 @@ fn escapes_from(ss: &[S], ids: &mut Vec<usize>) -> bool {
     })
 }
 
+/// does the statement list contain a `break` of a loop other than `id` and the loops nested in it
+pub fn exits_other(ss: &[S], id: usize) -> bool {
+    fn go(ss: &[S], ids: &mut Vec<usize>) -> bool {
+        ss.iter().any(|s| match s {
+            S::Exit { target } => !ids.contains(target),
+            S::If { a, b, .. } => go(a, ids) || go(b, ids),
+            S::MatchOpt { none, .. } => go(none, ids),
+            S::Loop { id, body, .. } => {
+                ids.push(*id);
+                let r = go(body, ids);
+                ids.pop();
+                r
+            }
+            _ => false,
+        })
+    }
+    go(ss, &mut vec![id])
+}
+
 /// does the statement list contain a `break` of loop `id`
 pub fn breaks(ss: &[S], id: usize) -> bool {
     ss.iter().any(|s| match s {
